@@ -467,6 +467,9 @@ def energy_rule(ctx):
 
 
 def run(ctx):
+    from ..shared import zero_argument_division_rule as _zero_argument_division_rule
+
+    _zero_argument_division_rule(ctx, "R16.12", scope=lambda f: f.module.name.startswith(("EasyFEA.Models.InElastic", "EasyFEA.Simulations._inelastic")))
     from ..shared import group_loop_rule as _group_loop_rule
     from . import c14 as _c14
 
